@@ -396,7 +396,7 @@ theorem stepCore_ptrans {s s' : St} {op : Op} {o : Out} (hc : callerOk s op = tr
   case setFactors x =>
     simp only [setFactors, Option.bind_eq_bind, Option.bind_eq_some_iff, req_eq_some,
       Option.pure_def, Option.some.injEq, Prod.mk.injEq] at h
-    obtain ⟨_, _, c, _, rfl, _⟩ := h
+    obtain ⟨_, _, _, _, c, _, rfl, _⟩ := h
     exact PTrans.refl _
   case collectUndistributed =>
     simp only [collectUndistributed, Option.bind_eq_bind, Option.bind_eq_some_iff, req_eq_some] at h
